@@ -362,3 +362,51 @@ Proof.
       rewrite Hno. rewrite Hget. reflexivity.
   - rewrite Hc3. eexists; reflexivity.
 Qed.
+
+(* ---------------------------------------------------------------- whole programs *)
+Lemma render_step_len st : (1 <= length (render_step st))%nat.
+Proof.
+  unfold render_step. rewrite app_length, render_num_core, app_length.
+  destruct (num_core_hd (st_end st) 0 []) as (c & t & E & _). rewrite app_nil_r in E. rewrite E. cbn [length]. lia.
+Qed.
+Lemma len_steps ss : (length ss <= length (flat_map render_step ss))%nat.
+Proof. induction ss as [|s ss IH]; [cbn; lia|]. cbn [flat_map length]. rewrite app_length. pose proof (render_step_len s). lia. Qed.
+
+Lemma read_program a : wf_layout a = true ->
+  if in_range a then read_all (render a) = (calls a, Ok)
+  else exists cs ln, read_all (render a) = (cs, Err ln).
+Proof.
+  unfold wf_layout, in_range. intros H. apply andb_true_iff in H. destruct H as [H Htr]. apply andb_true_iff in H. destruct H as [Hh Hs].
+  unfold read_all, read_with, render.
+  pose proof (header_spec (p_hdr a) (flat_map render_step (p_steps a) ++ p_trail a) Hh) as Hhdr.
+  rewrite <- app_assoc in Hhdr |- *.
+  destruct (r_id (h_rev (p_hdr a))).
+  2:{ destruct Hhdr as (ln & E). rewrite E. cbn [andb]. eexists; eexists; reflexivity. }
+  destruct Hhdr as (ln & E). rewrite E. cbn [andb rest].
+  destruct (p_steps a) as [|st ss] eqn:Ess.
+  - (* no step at all *)
+    cbn [flat_map app forallb andb]. rewrite andb_false_r.
+    destruct (match_int_none (p_trail a) [] ln (forallb_ws _ Htr) I) as (ln' & _ & En & El); [intros c r' Hc; discriminate Hc|].
+    rewrite app_nil_r in En, El.
+    cbn [parse_complete]. unfold parse_round, read_step. cbn [dirs rest]. unfold m_pos, m_range.
+    destruct (a_match_int false (amk (p_trail a) ln)) as [[v|] s']; cbn [fst] in En; [discriminate En|].
+    eexists; eexists; reflexivity.
+  - pose proof (steps_spec (st :: ss) (0 :: (flat_map render_step (st :: ss) ++ p_trail a)) (h_inc (p_hdr a))
+                  (amk (flat_map render_step (st :: ss) ++ p_trail a) ln) ln true (p_trail a) ltac:(congruence) Hs (forallb_ws _ Htr)
+                  (or_introl eq_refl)) as Hst.
+    specialize (Hst ltac:(cbn [length]; rewrite app_length; pose proof (len_steps (st :: ss)); cbn [length] in *; lia)).
+    assert (Eok : match st :: ss with [] => false | [_] => true | _ :: _ :: _ => h_inc (p_hdr a) end
+                  = (h_inc (p_hdr a) || (Z.of_nat (length (st :: ss)) =? 1))).
+    { destruct ss as [|st2 ss2]; [cbn [length]; change (Z.of_nat 1 =? 1) with true; rewrite orb_true_r; reflexivity|].
+      assert (El : (Z.of_nat (length (st :: st2 :: ss2)) =? 1) = false) by (cbn [length]; lia). rewrite El, orb_false_r. reflexivity. }
+    rewrite Eok. change (forallb (fun s => forallb dir_in_range (st_dirs s)) (st :: ss)) with (forallb step_ok (st :: ss)).
+    destruct (forallb step_ok (st :: ss) && (h_inc (p_hdr a) || (Z.of_nat (length (st :: ss)) =? 1))).
+    + rewrite Hst. unfold calls. rewrite Ess. reflexivity.
+    + destruct Hst as (cs & ln' & E2). rewrite E2. eexists; eexists; reflexivity.
+Qed.
+
+Theorem c03_complete_lemma a : wf_layout a = true -> in_range a = true -> read_all (render a) = (calls a, Ok).
+Proof. intros Hl Hr. pose proof (read_program a Hl) as H. rewrite Hr in H. exact H. Qed.
+
+Theorem c03_rejects_lemma a : wf_layout a = true -> in_range a = false -> exists cs ln, read_all (render a) = (cs, Err ln).
+Proof. intros Hl Hr. pose proof (read_program a Hl) as H. rewrite Hr in H. exact H. Qed.
